@@ -102,7 +102,9 @@ def r141(prog, chk):
 
 
 # ----------------------------------------------------------------------------- R14.2
-def r142(prog, chk):
+def check_no_filter_state(prog, chk, rule="R14.2"):
+    """No per-call state on a filter object other than self.context (shared with C08 as R08.8: a filter object reused
+    for another font must give what a fresh one gives)."""
     ix = prog.ix
     n = 0
     for ci in filter_classes(prog):
@@ -124,7 +126,7 @@ def r142(prog, chk):
                             continue
                         n += 1
                         ok = chain[0] == "context"
-                        chk.ob("R14.2", f"{m.short}|{A.keytext(m.node, st)}", ok, where(m, st),
+                        chk.ob(rule, f"{m.short}|{A.keytext(m.node, st)}", ok, where(m, st),
                                detail=f"write to self.{'.'.join(chain)}",
                                message=f"{m.short} keeps state on the filter object outside self.context (self.{'.'.join(chain)}): it survives into the next invocation")
             for c in A.body_nodes(m.node):
@@ -134,8 +136,15 @@ def r142(prog, chk):
                         continue
                     n += 1
                     ok = chain[0] == "context"
-                    chk.ob("R14.2", f"{m.short}|{A.keytext(m.node, c)}", ok, where(m, c), detail=f"mutation of self.{'.'.join(chain)}",
+                    chk.ob(rule, f"{m.short}|{A.keytext(m.node, c)}", ok, where(m, c), detail=f"mutation of self.{'.'.join(chain)}",
                            message=f"{m.short} mutates self.{'.'.join(chain)}, state that is not reset per call")
+    chk.minimum(rule, 5) if rule != "R14.2" else None
+    return n
+
+
+def r142(prog, chk):
+    ix = prog.ix
+    n = check_no_filter_state(prog, chk, "R14.2")
     # the context is fresh
     for cq in (BASE_FILTER, BASE_IFILTER):
         sc = ix.get_method(cq, "set_context", own=True)
